@@ -538,7 +538,7 @@ func (p *pathCtx) timeNow() value {
 		p.assumeQuiet(ts.Cmp(OpBvUle, p.lastClock, cur))
 	}
 	p.lastClock = cur
-	p.nondets = append(p.nondets, nondetRec{Name: name, Kind: "int", Term: ts.Zext(v, 32)})
+	p.nondets = append(p.nondets, nondetRec{Name: name, Kind: "env", Term: ts.Zext(v, 32)})
 	return structure{uint64(0), p.mkInt(cur, types.Int64), (*value)(nil)}
 }
 
